@@ -168,3 +168,49 @@ Proof. vm_compute. repeat split. Qed.
 Example C10_units_example :
   a_Turn QcF (Q2Qc 9) (Q2Qc 3) = Q2Qc 3 /\ a_Coulomb QcF (Q2Qc 4) (Q2Qc 2) = Q2Qc (1 # 2).
 Proof. split; apply Qc_is_canon; reflexivity. Qed.
+
+(** *** (family scaling) the time axis value and the conversion inputs main() hands to the results file and the fields,
+    over the definitions GENERATED from main() on every run (Gen/Gen_Scaling.v: [gen_h5_time] is the second argument of
+    HDF5File::append(ps, t, at) inside and after the loop, [gen_t_sync]/[gen_h5_f_rev] the `t_sync`/`f_rev` arguments of
+    the HDF5File constructor, [gen_dt]/[gen_revolutionpart] what the wake field receives, [gen_rdtn_revolutionpart] the
+    radiation field, [L S_simulationstep] the loop counter; everything inlined down to the options). *)
+From Inovesa Require Model.ScalingOps Gen.Gen_Scaling Proofs.ScalingUnitsP.
+Module ScalingFamily.   (* imports and scopes stay local to this block *)
+Import ScalingOps Gen_Scaling ScalingUnitsP.
+Local Open Scope F_scope.
+
+(** the time stored with a record is step/StepsPerTs: in units of synchrotron periods *)
+Theorem C10_main_time_in_synchrotron_periods :
+  forall (K : Fld) (O : Ops K) (L : leaf -> K) (B : bleaf -> bool),
+    o_lt O 0 (L O_getStepsPerTrev) = false -> o_lt O (L O_getStepsPerTsync) 1 = false ->
+    L O_getStepsPerTsync <> 0 ->
+    gen_h5_time K O L B * L O_getStepsPerTsync = L S_simulationstep.
+Proof. exact h5_time_in_periods. Qed.
+Print Assumptions C10_main_time_in_synchrotron_periods.
+
+Theorem C10_main_time_with_StepsPerRevolution :
+  forall (K : Fld) (O : Ops K) (L : leaf -> K) (B : bleaf -> bool),
+    o_lt O 0 (L O_getStepsPerTrev) = true -> o_is0 O (L O_getSyncFreq) = false ->
+    L O_getStepsPerTrev <> 0 -> L O_getRevolutionFrequency <> 0 -> L O_getSyncFreq <> 0 ->
+    gen_h5_time K O L B * (L O_getStepsPerTrev * L O_getRevolutionFrequency / L O_getSyncFreq) = L S_simulationstep.
+Proof. exact h5_time_with_StepsPerRevolution. Qed.
+Print Assumptions C10_main_time_with_StepsPerRevolution.
+
+(** the inputs of the unit identities above ([t_sync], [dt], [revolutionpart] of Model/H5Units.v) are what main() passes:
+    dt = 1/(f_s steps) to the wake field, revolutionpart = f_rev dt to both fields and to every RF map that takes it,
+    t_sync = 1/f_s and f_rev to the file (synchrotron frequency given, StepsPerTs >= 1) *)
+Theorem C10_main_unit_inputs :
+  forall (K : Fld) (O : Ops K) (L : leaf -> K) (B : bleaf -> bool),
+    o_is0 O (L O_getSyncFreq) = false ->
+    o_lt O 0 (L O_getStepsPerTrev) = false -> o_lt O (L O_getStepsPerTsync) 1 = false ->
+    L O_getSyncFreq <> 0 -> L O_getStepsPerTsync <> 0 ->
+    let fs := L O_getSyncFreq in let steps := L O_getStepsPerTsync in let frev := L O_getRevolutionFrequency in
+    gen_t_sync K O L B = t_sync K fs /\ gen_h5_f_rev K O L B = frev /\ gen_f_rev K O L B = frev /\
+    gen_dt K O L B = dt K fs steps /\
+    gen_revolutionpart K O L B = revolutionpart K frev fs steps /\
+    gen_rdtn_revolutionpart K O L B = revolutionpart K frev fs steps /\
+    gen_dynrf_revolutionpart K O L B = revolutionpart K frev fs steps /\
+    gen_sinrf_revolutionpart K O L B = revolutionpart K frev fs steps.
+Proof. exact h5_unit_inputs. Qed.
+Print Assumptions C10_main_unit_inputs.
+End ScalingFamily.
